@@ -274,6 +274,10 @@ func idemMain(s *simrt.Sim, info *harness.RunInfo) {
 			}
 			if s.Chance(100) {
 				op.method = "GET"
+			} else if s.Chance(350) {
+				// every method that is not safe is guarded, whether or not HTTP calls it idempotent
+				op.method = simrt.PickS(s, "PUT", "DELETE", "PATCH")
+				s.Count("probe_guarded_method_other_than_post")
 			}
 			if s.Chance(failPermille) {
 				op.fail = true
@@ -389,7 +393,7 @@ func idemMain(s *simrt.Sim, info *harness.RunInfo) {
 			s.Fail("C17.progress", "op%d never returned", op.id)
 			continue
 		}
-		guarded := op.key != "" && op.method == "POST"
+		guarded := op.key != "" && op.method != "GET"
 		class := "own"
 		switch {
 		case !guarded:
@@ -455,7 +459,7 @@ func idemMain(s *simrt.Sim, info *harness.RunInfo) {
 	// at most one successful completion per key and lifetime
 	perKey := map[string][]*idemExec{}
 	for _, ex := range execs {
-		if ex.ok && ex.op.key != "" && ex.op.method == "POST" && !ex.op.setErr {
+		if ex.ok && ex.op.key != "" && ex.op.method != "GET" && !ex.op.setErr {
 			perKey[ex.op.key] = append(perKey[ex.op.key], ex)
 		}
 	}
